@@ -1444,7 +1444,7 @@ class ArgMax:
 def find_argmax(pdb, ctx, loop):
     """Recognise `for v in lo..hi { if cur ⊳ best { best = cur; [idx = v] } }` in the body of `loop`.
     Returns ArgMax or None."""
-    r = for_range(ctx, loop)
+    r = for_range_total(ctx, loop)     # a search loop that can skip candidates (break / continue) is not an arg-max
     if r is None:
         return None
     body = loop["body"]
